@@ -89,11 +89,23 @@ def run(pid, tier):
         lines = gen.join(execs).split("\n")
         api = apicheck.run_api(bdir, drv, lines, spec="PchkTrace")
         mine = apicheck.judge(pid, api, verdict)
+        # 3. draw-level binding at sizes the full construction cannot be re-evaluated for: every PRNG call,
+        #    drawn index and range argument of a few very large constructions, validated event by event
+        big = [(3000, 1500, 3), (8000, 400, 5), (12000, 5000, 4)] if tier == "quick" else \
+              [(3000, 1500, 3), (8000, 400, 5), (20000, 10000, 3), (40000, 10000, 3), (49000, 1000, 7), (15000, 30000, 4)]
+        bex = []
+        for (k, r, n1) in big:
+            bex.append(["create 0 3 %s" % rng.choice(["enc", "dec"]),
+                        "rawparams 0 %d %d 1 0 %d %d" % (k, r, n1, rng.randrange(1, 2 ** 31 - 1)), "release 0"])
+        dapi = apicheck.run_api(os.path.join(bdir), drv, gen.join(bex).split("\n"), nproc=len(bex), spec="PchkDrawTrace",
+                                drv_env={"OF_DRIVER_PCHKEVENTS": "1"}) if pid == "C05" else None
+        if dapi:
+            apicheck.judge(pid, dapi, verdict)
         rc = verdict.finish()
         nlast = 0
         cov = {
-            "states": mc.distinct + api["distinct"],
-            "transitions": mc.states + api["states"],
+            "states": mc.distinct + api["distinct"] + (dapi["distinct"] if dapi else 0),
+            "transitions": mc.states + api["states"] + (dapi["states"] if dapi else 0),
             "traces_validated_against_impl": api["execs"],
             "samples": apicheck.sample_execs(lines, 2),
             "evaluations": 2 * len(pts),
@@ -105,6 +117,7 @@ def run(pid, tier):
             "trace_lines": api["lines"],
             "drift_lines": len(api["drift"]),
             "max_k": max(p[0] for p in pts),
+            "draw_level_points": big if dapi else [], "draw_level_events_validated": dapi["lines"] if dapi else 0,
             "uneven_placements_validated": sum(int(x.split(", ")[0]) for r in api["results"] for x in r.get("pstat", [])),
             "completion_entries_validated": sum(int(x.split(", ")[1]) for r in api["results"] for x in r.get("pstat", [])),
             "exhaustive": False,
